@@ -134,9 +134,9 @@ func (f fakeIndex) at(lid seq.LID) seq.ID {
 	return seq.ID{}
 }
 func (f fakeIndex) LessOrEqual(lid seq.LID, id seq.ID) bool { return seq.LessOrEqual(f.at(lid), id) }
-func (f fakeIndex) GetMID(lid seq.LID) seq.MID             { return f.at(lid).MID }
-func (f fakeIndex) GetRID(lid seq.LID) seq.RID             { return f.at(lid).RID }
-func (f fakeIndex) Len() int                               { return len(f.mids) }
+func (f fakeIndex) GetMID(lid seq.LID) seq.MID              { return f.at(lid).MID }
+func (f fakeIndex) GetRID(lid seq.LID) seq.RID              { return f.at(lid).RID }
+func (f fakeIndex) Len() int                                { return len(f.mids) }
 
 // round 2: seq.LessOrEqual, util.BinSearchInRange (predicate = a table of bits, monotone or not, panicking outside
 // it), processor.getLIDsBorders (index = a descending or arbitrary table of IDs incl. the stub at LID 0)
